@@ -68,6 +68,7 @@ def main():
         committed = False
         prev_to = None
         cursor, kind, mode = None, 'k', None
+        ever = {}           # key rank -> value ranks it has held so far in this behaviour
         exact = True
         counts['behaviours'] += 1
         hist = []
@@ -79,6 +80,7 @@ def main():
             got = ['-']
             try:
                 if op == 'setitem':
+                    ever.setdefault(a['k'], set()).add(1 if is_set else a['v'])
                     if is_set:
                         t.add(emb.key(a['k']))
                     else:
@@ -159,6 +161,10 @@ def main():
                 mism.append(dict(where, kind='outcome-outside-the-property', real=got))
             elif got[0] == 'entry' and any(isinstance(x, str) for x in got[1:]):
                 mism.append(dict(where, kind='entry-is-not-an-entry', real=got))
+            elif got[0] == 'entry' and ((got[1] is not None and got[1] not in ever) or
+                                        (got[1] is not None and got[2] is not None and not is_set and got[2] not in ever.get(got[1], ()))):
+                # "yields some entry": a key that was stored at some time, with a value that key has held
+                mism.append(dict(where, kind='entry-was-never-stored', real=got, held={k: sorted(v) for k, v in ever.items()}))
             elif impl == 'c' and exact:
                 # exact: same outcome; of an entry the recorded component(s)
                 ok = got[0] == want[0]
